@@ -174,143 +174,3 @@ func keysOf(ents []rawEntry) []string {
 	}
 	return out
 }
-
-// circuitIDCase is one generated circuit-id and the request that carries it.
-type circuitIDCase struct {
-	cid    []byte
-	remote []byte
-	pos    int
-	cls    string
-}
-
-func genCircuitID(rt *rapid.T) circuitIDCase {
-	var cc circuitIDCase
-	var n int
-	switch rapid.IntRange(0, 9).Draw(rt, "lencls") {
-	case 0:
-		n, cc.cls = 32, "cid:len=32"
-	case 1:
-		n, cc.cls = rapid.IntRange(1, 2).Draw(rt, "len"), "cid:len=1-2"
-	case 2, 3:
-		n, cc.cls = rapid.IntRange(33, 64).Draw(rt, "len"), "cid:len>32"
-	case 4:
-		n, cc.cls = 0, "cid:len=0"
-	default:
-		n, cc.cls = rapid.IntRange(3, 31).Draw(rt, "len"), "cid:len=3-31"
-	}
-	cc.cid = rapid.SliceOfN(rapid.Byte(), n, n).Draw(rt, "cid")
-	if n > 0 {
-		switch rapid.IntRange(0, 5).Draw(rt, "tail") {
-		case 0: // trailing zero bytes: padding must not be confused with content
-			z := rapid.IntRange(1, n).Draw(rt, "zeros")
-			for i := n - z; i < n; i++ {
-				cc.cid[i] = 0
-			}
-		case 1:
-			for i := range cc.cid {
-				cc.cid[i] = 0xff
-			}
-		}
-	}
-	if n < 2 || rapid.Bool().Draw(rt, "withRemote") {
-		// RFC 3046 relay agents normally add a remote-id; with a circuit-id shorter than two bytes it
-		// is what makes the option long enough for the program's fixed-position parser
-		cc.remote = rapid.SliceOfN(rapid.Byte(), 2, 8).Draw(rt, "remote")
-	}
-	cc.pos = rapid.SampledFrom([]int{3, 3, 12, 13, 14, 15, 16, 17, 18, 19}).Draw(rt, "pos")
-	return cc
-}
-
-// TestPropKeysCircuitID: the key AddCircuitIDSubscriber stores for a circuit-id against the key
-// extract_circuit_id_fixed builds from a request carrying that circuit-id.
-func TestPropKeysCircuitID(t *testing.T) {
-	c := engine(t)
-	cidSubs := kernelMap(t, c, "circuit_id_subscribers")
-	defer cidSubs.Close()
-	loader, err := bngebpf.NewLoader("lo", zap.NewNop())
-	if err != nil {
-		t.Fatalf("INCONCLUSIVE: %v", err)
-	}
-	loader.VerifC06SetMaps(map[string]*ebpfMap{"circuit_id_subscribers": cidSubs})
-	// HashCircuitID: is there anything on the C side to compare with?
-	uses := 0
-	for _, s := range c.Sites() {
-		if s.Map == "circuit_id_map" {
-			uses++
-		}
-	}
-	if uses == 0 {
-		note("HashCircuitID", "bpf/ declares circuit_id_map but no program looks it up and no FNV-1a implementation exists in C: nothing to compare ebpf.HashCircuitID with")
-	} else {
-		t.Fatalf("VIOLATION sig=%s: bpf/ now looks up circuit_id_map at %d call sites; this check has no comparison for the C hash yet", sig("ebpf.HashCircuitID", "unchecked-c-implementation"), uses)
-	}
-
-	vstat.Checks(4000, 60000)
-	rapid.Check(t, func(rt *rapid.T) { circuitIDProperty(rt, c, loader, cidSubs, genCircuitID(rt)) })
-}
-
-func circuitIDProperty(rt fataler, c *bpfnative.Client, loader *bngebpf.Loader, cidSubs *ebpfMap, cc circuitIDCase) {
-	bootp := bootpRequest(1, 0x11223344, mac6{2, 0, 0, 0, 0, 1}, opt82{present: true, circuitID: cc.cid, remoteID: cc.remote, pos: cc.pos})
-	r := callOK(rt, c, "dhcp_fastpath.extract_circuit_id_fixed", [4]uint64{}, bootp)
-	cFound, cKey := r.Ret != 0, r.Out
-	sample := func() any {
-		return map[string]any{"circuit_id": hexs(cc.cid), "pos": cc.pos, "c_found": cFound, "c_key": hexs(cKey)}
-	}
-	fp := vstat.Hash("cid", cc.cid, cc.remote, cc.pos)
-	nt := len(cc.cid) >= 2
-
-	if len(cc.cid) == 0 {
-		// the slow path never stores an empty circuit-id (server.go guards len > 0); the C side must not
-		// invent a key either
-		if cFound && !vstat.Fail(rt, sig("extract_circuit_id_fixed", "key-for-empty-circuit-id"), "C derives key %x from an empty circuit-id sub-option", cKey) {
-			return
-		}
-		vstat.Case(false, fp, sample, cc.cls)
-		return
-	}
-	clearMap(cidSubs)
-	err := loader.AddCircuitIDSubscriber(cc.cid, &bngebpf.PoolAssignment{PoolID: 7})
-	if err != nil {
-		if len(cc.cid) <= bngebpf.CircuitIDKeyLen {
-			if vstat.Fail(rt, sig("ebpf.Loader.AddCircuitIDSubscriber~circuit_id_subscribers", "put-refused"), "AddCircuitIDSubscriber(%x): %v", cc.cid, err) {
-				return
-			}
-		}
-		// the Go side declines to derive a key: nothing stored, nothing to disagree about
-		vstat.Case(nt, fp, sample, cc.cls, "cid:go-declined")
-		return
-	}
-	ents := dumpKernel(rt, cidSubs)
-	if len(ents) != 1 {
-		rt.Fatalf("INCONCLUSIVE: %d entries after one AddCircuitIDSubscriber", len(ents))
-	}
-	goKey := ents[0].Key
-	if mk := bngebpf.MakeCircuitIDKey(cc.cid); !bytes.Equal(mk[:], goKey) {
-		if vstat.Fail(rt, sig("ebpf.CircuitIDKey~circuit_id_key", "key-bytes"), "MakeCircuitIDKey = %x but the map holds key %x", mk[:], goKey) {
-			return
-		}
-	}
-	switch {
-	case len(cc.cid) > bngebpf.CircuitIDKeyLen:
-		if !cFound {
-			if vstat.Fail(rt, sig("ebpf.MakeCircuitIDKey~extract_circuit_id_fixed", "over-32-bytes"),
-				"circuit-id of %d bytes: Go stores the entry under the truncated key %x, the C side derives no key for it (cid_len > CIRCUIT_ID_KEY_LEN is rejected)", len(cc.cid), goKey) {
-				return
-			}
-		} else if !bytes.Equal(cKey, goKey) {
-			if vstat.Fail(rt, sig("ebpf.MakeCircuitIDKey~extract_circuit_id_fixed", "key-mismatch"), "circuit-id %x: Go key %x, C key %x", cc.cid, goKey, cKey) {
-				return
-			}
-		}
-	case !cFound:
-		if vstat.Fail(rt, sig("ebpf.MakeCircuitIDKey~extract_circuit_id_fixed", "c-derives-no-key"),
-			"circuit-id %x (%d bytes) at options offset %d: C derives no key, Go stored %x", cc.cid, len(cc.cid), cc.pos, goKey) {
-			return
-		}
-	case !bytes.Equal(cKey, goKey):
-		if vstat.Fail(rt, sig("ebpf.MakeCircuitIDKey~extract_circuit_id_fixed", "key-mismatch"), "circuit-id %x: Go key %x, C key %x", cc.cid, goKey, cKey) {
-			return
-		}
-	}
-	vstat.Case(nt, fp, sample, cc.cls, fmt.Sprintf("cid:pos=%d", min(cc.pos, 12)))
-}
